@@ -6,15 +6,18 @@ From GocqlV Require Import Lib.Base C15.Model C15.Spec C15.Proofs1.
 Set Implicit Arguments.
 
 Section P2.
-Variables (R Q : Type) (q : Q) (auto : bool) (posf : nat -> Z).
+Variables (R M Q : Type) (q : Q) (auto : bool) (posf : nat -> Z) (mm : meta_mode M) (nr : nat).
 
-Notation machT := (mach R Q).
-Notation fut_rows := (fut_rows (Q:=Q) auto).
-Notation fut_end := (fut_end (Q:=Q) auto).
-Notation fut_states := (fut_states (Q:=Q) auto).
-Notation total := (total q auto).
-Notation scanp := (scanp q auto posf).
+Notation machT := (mach R M Q).
+Notation fut_rows := (fut_rows (Q:=Q) auto mm nr).
+Notation fut_end := (fut_end (Q:=Q) auto nr).
+Notation fut_states := (fut_states (Q:=Q) auto nr).
+Notation total := (total q auto nr).
+Notation scanp := (scanp q auto posf mm nr).
 Notation mk := (mk q).
+Notation spec_rows := (spec_rows auto mm nr).
+Notation spec_end := (spec_end (R:=R) (M:=M) auto nr).
+Notation spec_states := (spec_states (R:=R) (M:=M) auto nr).
 
 (* ---- the loop `for iter.Scan(...)` --------------------------------------------------------- *)
 Lemma drain_spec pre : forall fuel (m : machT), m_fetched m = None -> (length (fut_rows m) < fuel)%nat ->
@@ -23,172 +26,230 @@ Lemma drain_spec pre : forall fuel (m : machT), m_fetched m = None -> (length (f
 Proof.
   induction fuel as [|fuel IH]; intros m Hf Hl; [lia|].
   cbn [drain]. destruct (scanp pre m) as [o m1] eqn:E.
-  destruct (@scanp_step R Q q auto posf pre m o m1 Hf E) as (S1 & S2 & S3 & S4).
+  destruct (@scanp_step R M Q q auto posf mm nr pre m o m1 Hf E) as (S1 & S2 & S3 & S4).
   destruct o as [r|].
   - rewrite S4 in Hl. cbn in Hl. destruct (IH m1 S1) as (m' & D & A & B & C & F); [lia|].
     rewrite D. exists m'. rewrite S4. repeat split; auto; congruence.
   - destruct S4 as (J1 & J2 & J3 & J4). exists m1. rewrite J1. repeat split; auto.
 Qed.
 
-Lemma spec_rows_le (s : list (reply R)) : (length (spec_rows auto s) <= script_rows s)%nat.
+Lemma spec_rows_le : forall (s : list (reply R M)) left, (length (Spec.spec_rows auto mm nr left s) <= script_rows s)%nat.
 Proof.
-  unfold script_rows. induction s as [|r s IH]; cbn [fold_right spec_rows length]; [lia|].
-  destruct r as [rows more st|e| |]; cbn [reply_rows length]; try lia.
-  rewrite app_length. destruct (more && auto); cbn [length]; lia.
+  unfold script_rows. induction s as [|r s IH]; intro left; cbn [fold_right Spec.spec_rows length]; [lia|].
+  destruct r as [rows more st mt|e| |]; cbn [reply_rows length].
+  - rewrite app_length, map_length. destruct (more && auto); cbn [length]; [specialize (IH nr)|]; lia.
+  - destruct left; [cbn; lia|]. specialize (IH left). lia.
+  - lia.
+  - specialize (IH left). lia.
 Qed.
 
 Lemma fut_rows_le (m : machT) : (length (fut_rows m) <= rows_left m)%nat.
 Proof.
   unfold Proofs1.fut_rows, fut_rows_i, rows_left. destruct (i_err (m_cur m)); cbn; [lia|].
-  rewrite app_length, skipn_length. pose proof (spec_rows_le (m_srv m)).
-  destruct (i_next (m_cur m)); cbn; lia.
+  rewrite app_length, skipn_length. pose proof (spec_rows_le (m_srv m) nr).
+  unfold drow in *. destruct (m_fetched m); destruct (i_next (m_cur m)); cbn [length]; lia.
 Qed.
 
-Theorem slice_map_open ps (s : list (reply R)) :
-  exists m', slice_map q auto posf (open q auto posf ps s)
-             = Some (match spec_end auto s with None => spec_rows auto s | Some _ => [] end, spec_end auto s, m')
-    /\ m_reqs m' = map mk (spec_states auto ps s).
+Theorem slice_map_open ps (s : list (reply R M)) :
+  exists m', slice_map q auto posf mm nr (open q auto posf mm nr ps s)
+             = Some (match spec_end nr s with None => spec_rows nr s | Some _ => [] end, spec_end nr s, m')
+    /\ m_reqs m' = map mk (spec_states nr ps s).
 Proof.
-  destruct (open_spec q auto posf ps s) as (O1 & _ & O3 & O4 & O5).
-  set (m := open q auto posf ps s) in *. unfold slice_map.
+  destruct (open_spec q auto posf mm nr ps s) as (O1 & _ & O3 & O4 & O5).
+  set (m := open q auto posf mm nr ps s) in *. unfold slice_map.
   destruct (i_err (m_cur m)) as [e|] eqn:He.
   - exists m. assert (X : fut_end m = Some e) by (unfold Proofs1.fut_end, fut_end_i; rewrite He; reflexivity).
     rewrite <- O4, X. split; [reflexivity|]. rewrite <- O5. unfold Proofs1.total, Proofs1.fut_states, fut_states_i.
     rewrite He. cbn. rewrite app_nil_r. reflexivity.
   - destruct (@drain_spec true (S (rows_left m)) m O1) as (m' & D & A & B & C & F).
     { pose proof (fut_rows_le m). lia. }
-    change (scan q auto posf) with (@Proofs1.scanp R Q q auto posf true). rewrite D. exists m'.
-    assert (Y : m_reqs m' = map mk (spec_states auto ps s)).
+    change (scan q auto posf mm nr) with (@Proofs1.scanp R M Q q auto posf mm nr true). rewrite D. exists m'.
+    assert (Y : m_reqs m' = map mk (spec_states nr ps s)).
     { rewrite <- O5, <- C. unfold Proofs1.total. rewrite F. cbn. rewrite app_nil_r. reflexivity. }
-    unfold close in B. rewrite B, O4, O3. destruct (spec_end auto s); auto.
+    unfold close in B. rewrite B, O4, O3. destruct (spec_end nr s); auto.
 Qed.
 
 End P2.
 
-(* ---- readable forms of the specification ------------------------------------------------------- *)
+(* ---- readable forms of the specification (no retry policy: nr = 0) ------------------------------- *)
 Section SpecFacts.
-Variable R : Type.
+Variables R M : Type.
+Variable mm : meta_mode M.
+
+Notation reply := (reply R M).
+Notation spec_rows a := (spec_rows a mm 0 0).
+Notation spec_end a := (spec_end (R:=R) (M:=M) a 0 0).
+Notation spec_states a := (spec_states (R:=R) (M:=M) a 0 0).
 
 (* a script that is a run of pages with more pages, then an answer that is not one *)
-Definition more_page (p : list R * list Z) : reply R := RPage (fst p) true (snd p).
+Definition more_page (p : list R * list Z * M) : reply := RPage (fst (fst p)) true (snd (fst p)) (snd p).
+Definition page_rows (p : list R * list Z * M) : list (R * M) := map (fun r => (r, spec_meta mm (snd p))) (fst (fst p)).
+Definition fin_rows (fin : reply) : list (R * M) :=
+  match fin with RPage rows _ _ mt => map (fun r => (r, spec_meta mm mt)) rows | _ => [] end.
 
-Lemma spec_states_pages : forall (pages : list (list R * list Z)) ps fin rest,
+Lemma spec_states_pages : forall (pages : list (list R * list Z * M)) ps fin rest,
   continues fin = false ->
-  spec_states true ps (map more_page pages ++ fin :: rest) = ps :: map snd pages.
+  spec_states true ps (map more_page pages ++ fin :: rest) = ps :: map (fun p => snd (fst p)) pages.
 Proof.
   induction pages as [|p pages IH]; intros ps fin rest Hc; cbn.
-  - destruct fin as [rows more st|e| |]; cbn in *; try reflexivity; try discriminate.
+  - destruct fin as [rows more st mt|e| |]; cbn in *; try reflexivity; try discriminate.
     destruct more; [discriminate|reflexivity].
   - rewrite IH by exact Hc. reflexivity.
 Qed.
 
-Lemma spec_rows_pages : forall (pages : list (list R * list Z)) fin rest,
+Lemma spec_rows_pages : forall (pages : list (list R * list Z * M)) fin rest,
   continues fin = false ->
-  spec_rows true (map more_page pages ++ fin :: rest)
-  = concat (map fst pages) ++ match fin with RPage rows _ _ => rows | _ => [] end.
+  spec_rows true (map more_page pages ++ fin :: rest) = concat (map page_rows pages) ++ fin_rows fin.
 Proof.
   induction pages as [|p pages IH]; intros fin rest Hc; cbn.
-  - destruct fin as [rows more st|e| |]; cbn in *; try reflexivity; try discriminate.
+  - destruct fin as [rows more st mt|e| |]; cbn in *; try reflexivity; try discriminate.
     destruct more; [discriminate|]. cbn. rewrite app_nil_r. reflexivity.
   - rewrite IH by exact Hc. rewrite app_assoc. reflexivity.
 Qed.
 
-Lemma spec_end_pages : forall (pages : list (list R * list Z)) fin rest,
+Lemma spec_end_pages : forall (pages : list (list R * list Z * M)) fin rest,
   continues fin = false ->
   spec_end true (map more_page pages ++ fin :: rest)
-  = match fin with RErr _ e => Some e | _ => None end.
+  = match fin with RErr _ _ e => Some e | _ => None end.
 Proof.
   induction pages as [|p pages IH]; intros fin rest Hc; cbn.
-  - destruct fin as [rows more st|e| |]; cbn in *; try reflexivity; try discriminate.
+  - destruct fin as [rows more st mt|e| |]; cbn in *; try reflexivity; try discriminate.
     destruct more; [discriminate|reflexivity].
   - apply IH; exact Hc.
 Qed.
 
-Lemma spec_end_pages_noreply : forall (pages : list (list R * list Z)),
-  spec_end true (map more_page pages) = Some E_noreply.
-Proof. induction pages as [|p pages IH]; cbn; auto. Qed.
-
 (* the number of requests: one, plus one per leading answer that keeps the iteration going *)
-Lemma spec_states_length : forall (s : list (reply R)) ps,
+Lemma spec_states_length : forall (s : list reply) ps,
   length (spec_states true ps s) = S (length (leading s)).
 Proof.
   induction s as [|r s IH]; intros ps; cbn; [reflexivity|].
-  destruct r as [rows more st|e| |]; cbn; try reflexivity.
+  destruct r as [rows more st mt|e| |]; cbn; try reflexivity.
   - destruct more; cbn; [rewrite IH|]; reflexivity.
   - rewrite IH. reflexivity.
 Qed.
 
 (* a normal end means a last page (or a void result) was reached through answers that continue *)
-Lemma spec_end_normal : forall (s : list (reply R)), spec_end true s = None ->
-  exists pre r post, s = pre ++ r :: post /\ forallb (@continues R) pre = true
-    /\ (r = RVoid R \/ exists rows st, r = RPage rows false st).
+Lemma spec_end_normal : forall (s : list reply), spec_end true s = None ->
+  exists pre r post, s = pre ++ r :: post /\ forallb (@continues R M) pre = true
+    /\ (r = RVoid R M \/ exists rows st mt, r = RPage rows false st mt).
 Proof.
   induction s as [|r s IH]; cbn; intro H; [discriminate|].
-  destruct r as [rows more st|e| |].
+  destruct r as [rows more st mt|e| |].
   - destruct more; cbn in H.
-    + destruct (IH H) as (pre & r & post & A & B & C). exists (RPage rows true st :: pre), r, post.
+    + destruct (IH H) as (pre & r & post & A & B & C). exists (RPage rows true st mt :: pre), r, post.
       subst. cbn. rewrite B. auto.
-    + exists [], (RPage rows false st), s. cbn. split; [reflexivity|]. split; [reflexivity|]. right. eauto.
+    + exists [], (RPage rows false st mt), s. cbn. split; [reflexivity|]. split; [reflexivity|]. right. eauto.
   - discriminate.
-  - exists [], (RVoid R), s. cbn. auto.
-  - destruct (IH H) as (pre & r & post & A & B & C). exists (RUnprep R :: pre), r, post.
+  - exists [], (RVoid R M), s. cbn. auto.
+  - destruct (IH H) as (pre & r & post & A & B & C). exists (RUnprep R M :: pre), r, post.
     subst. cbn. rewrite B. auto.
 Qed.
 
 (* an error end means an error answer, or no answer at all, after answers that continue *)
-Lemma spec_end_error : forall (s : list (reply R)) e, spec_end true s = Some e ->
-  (exists pre post, s = pre ++ RErr R e :: post /\ forallb (@continues R) pre = true)
-  \/ (e = E_noreply /\ forallb (@continues R) s = true).
+Lemma spec_end_error : forall (s : list reply) e, spec_end true s = Some e ->
+  (exists pre post, s = pre ++ RErr R M e :: post /\ forallb (@continues R M) pre = true)
+  \/ (e = E_noreply /\ forallb (@continues R M) s = true).
 Proof.
   induction s as [|r s IH]; cbn; intros e H.
   - inversion H. right. auto.
-  - destruct r as [rows more st|e0| |].
+  - destruct r as [rows more st mt|e0| |].
     + destruct more; cbn in H; [|discriminate].
       destruct (IH _ H) as [(pre & post & A & B)|[A B]].
-      * left. exists (RPage rows true st :: pre), post. subst. cbn. rewrite B. auto.
+      * left. exists (RPage rows true st mt :: pre), post. subst. cbn. rewrite B. auto.
       * right. cbn. auto.
     + inversion H; subst. left. exists [], s. auto.
     + discriminate.
     + destruct (IH _ H) as [(pre & post & A & B)|[A B]].
-      * left. exists (RUnprep R :: pre), post. subst. cbn. rewrite B. auto.
+      * left. exists (RUnprep R M :: pre), post. subst. cbn. rewrite B. auto.
       * right. cbn. auto.
 Qed.
 
 (* manual paging: one page *)
-Lemma spec_rows_manual : forall (s : list (reply R)),
-  spec_rows false s = match first_answer s with Some (RPage rows _ _) => rows | _ => [] end.
+Lemma spec_rows_manual : forall (s : list reply),
+  spec_rows false s = match first_answer s with Some r => fin_rows r | None => [] end.
 Proof.
-  induction s as [|r s IH]; cbn; [reflexivity|]. destruct r as [rows more st|e| |]; cbn; auto.
+  induction s as [|r s IH]; cbn; [reflexivity|]. destruct r as [rows more st mt|e| |]; cbn; auto.
   rewrite andb_false_r, app_nil_r. reflexivity.
 Qed.
 
-Lemma spec_end_manual : forall (s : list (reply R)),
-  spec_end false s = match first_answer s with None => Some E_noreply | Some (RErr _ e) => Some e | Some _ => None end.
+Lemma spec_end_manual : forall (s : list reply),
+  spec_end false s = match first_answer s with None => Some E_noreply | Some (RErr _ _ e) => Some e | Some _ => None end.
 Proof.
-  induction s as [|r s IH]; cbn; [reflexivity|]. destruct r as [rows more st|e| |]; cbn; auto.
+  induction s as [|r s IH]; cbn; [reflexivity|]. destruct r as [rows more st mt|e| |]; cbn; auto.
   rewrite andb_false_r. reflexivity.
 Qed.
 
-Lemma spec_states_manual : forall (s : list (reply R)) ps,
+Lemma spec_states_manual : forall (s : list reply) ps,
   spec_states false ps s = repeat ps (S (unpreps s)).
 Proof.
-  induction s as [|r s IH]; intro ps; cbn; [reflexivity|]. destruct r as [rows more st|e| |]; cbn; auto.
+  induction s as [|r s IH]; intro ps; cbn; [reflexivity|]. destruct r as [rows more st mt|e| |]; cbn; auto.
   - rewrite andb_false_r. reflexivity.
   - rewrite IH. reflexivity.
+Qed.
+
+(* which metadata the delivered rows carry *)
+Lemma spec_rows_prepared_meta : forall auto pm n (s : list reply) left,
+  Forall (fun d => snd d = pm) (Spec.spec_rows auto (UsePrepared pm) n left s).
+Proof.
+  induction s as [|r s IH]; intro left; cbn; [constructor|].
+  destruct r as [rows more st mt|e| |]; try constructor; [|destruct left; [constructor|apply IH]|apply IH].
+  apply Forall_app. split.
+  - apply Forall_forall. intros d Hd. apply in_map_iff in Hd. destruct Hd as (r & E & _). subst. reflexivity.
+  - destruct (more && auto); [apply IH|constructor].
+Qed.
+
+Lemma spec_rows_server_meta : forall auto n (s : list reply) left r m,
+  In (r, m) (Spec.spec_rows auto UseServer n left s) ->
+  exists rows more st, In (RPage rows more st m) s /\ In r rows.
+Proof.
+  induction s as [|x s IH]; intros left r m H; cbn in H; [contradiction|].
+  destruct x as [rows more st mt|e| |]; try contradiction.
+  - apply in_app_or in H. destruct H as [H|H].
+    + apply in_map_iff in H. destruct H as (r0 & E & Hin). inversion E; subst.
+      exists rows, more, st. split; [left; reflexivity|exact Hin].
+    + destruct (more && auto); [|contradiction].
+      destruct (IH _ _ _ H) as (rows' & more' & st' & A & B). exists rows', more', st'. split; [right; exact A|exact B].
+  - destruct left; [contradiction|]. destruct (IH _ _ _ H) as (rows' & more' & st' & A & B).
+    exists rows', more', st'. split; [right; exact A|exact B].
+  - destruct (IH _ _ _ H) as (rows' & more' & st' & A & B).
+    exists rows', more', st'. split; [right; exact A|exact B].
+Qed.
+
+(* a retry policy with enough budget makes errors invisible: the script with retries is the script
+   without, in which every retried error reads "the same request again" *)
+Fixpoint retried (n left : nat) (s : list reply) : list reply :=
+  match s with
+  | [] => []
+  | RErr _ _ e :: t => match left with S l => RUnprep R M :: retried n l t | O => s end
+  | RUnprep _ _ :: t => RUnprep R M :: retried n left t
+  | RPage rows more st mt :: t => RPage rows more st mt :: retried n n t
+  | RVoid _ _ :: _ => s
+  end.
+
+Lemma spec_retried : forall auto n (s : list reply) left,
+  Spec.spec_rows auto mm n left s = Spec.spec_rows auto mm 0 0 (retried n left s)
+  /\ Spec.spec_end auto n left s = Spec.spec_end auto 0 0 (retried n left s).
+Proof.
+  induction s as [|r s IH]; intro left; cbn; [auto|].
+  destruct r as [rows more st mt|e| |]; cbn.
+  - destruct (IH n) as [A B]. destruct (more && auto); [rewrite A, B|]; auto.
+  - destruct left as [|l]; cbn; [auto|]. apply IH.
+  - auto.
+  - apply IH.
 Qed.
 
 End SpecFacts.
 
 (* ---- no next page: nothing is ever requested again, the exposed page state stays ------------------ *)
 Section NoNext.
-Variables (R Q : Type) (q : Q) (auto : bool) (posf : nat -> Z).
-Notation machT := (mach R Q).
+Variables (R M Q : Type) (q : Q) (auto : bool) (posf : nat -> Z) (mm : meta_mode M) (nr : nat).
+Notation machT := (mach R M Q).
 
 Definition quiet (m : machT) : Prop := i_next (m_cur m) = None /\ m_fetched m = None.
 Definition same_page (m m' : machT) : Prop :=
   quiet m' /\ m_reqs m' = m_reqs m /\ i_ps (m_cur m') = i_ps (m_cur m) /\ i_err (m_cur m') = i_err (m_cur m).
 
-Lemma scan_quiet (m : machT) o m' : quiet m -> scan q auto posf m = (o, m') -> same_page m m'.
+Lemma scan_quiet (m : machT) o m' : quiet m -> scan q auto posf mm nr m = (o, m') -> same_page m m'.
 Proof.
   intros [Hn Hf] H. unfold scan in H. replace (mu m + 2)%nat with (S (mu m + 1)) in H by lia.
   cbn [Model.scan_go] in H. unfold same_page, quiet.
@@ -198,24 +259,24 @@ Proof.
   - inversion H; subst. cbn. repeat split; auto.
 Qed.
 
-Lemma async_quiet (m : machT) : quiet m -> async q auto posf m = m.
+Lemma async_quiet (m : machT) : quiet m -> async q auto posf mm nr m = m.
 Proof.
   intros [Hn Hf]. unfold async, fetch. rewrite Hf, Hn. destruct (m_oncea m); reflexivity.
 Qed.
 
-Lemma step_quiet (m : machT) l o m' : quiet m -> step q auto posf m l = (o, m') -> same_page m m'.
+Lemma step_quiet (m : machT) l o m' : quiet m -> step q auto posf mm nr m l = (o, m') -> same_page m m'.
 Proof.
   intros Hq H. destruct l; cbn [step] in H.
-  - destruct (scan q auto posf m) as [o1 m1] eqn:E. inversion H; subst. eapply scan_quiet; eauto.
-  - rewrite map_scan_scan in H. destruct (scan q auto posf m) as [o1 m1] eqn:E. inversion H; subst. eapply scan_quiet; eauto.
+  - destruct (scan q auto posf mm nr m) as [o1 m1] eqn:E. inversion H; subst. eapply scan_quiet; eauto.
+  - rewrite map_scan_scan in H. destruct (scan q auto posf mm nr m) as [o1 m1] eqn:E. inversion H; subst. eapply scan_quiet; eauto.
   - rewrite async_quiet in H by exact Hq. inversion H; subst. unfold same_page. repeat split; auto; apply Hq.
 Qed.
 
-Lemma sched_quiet : forall ls (m : machT) os m', quiet m -> sched q auto posf m ls = (os, m') -> same_page m m'.
+Lemma sched_quiet : forall ls (m : machT) os m', quiet m -> sched q auto posf mm nr m ls = (os, m') -> same_page m m'.
 Proof.
   induction ls as [|l ls IH]; intros m os m' Hq H; cbn [sched] in H.
   - inversion H; subst. unfold same_page. repeat split; auto; apply Hq.
-  - destruct (step q auto posf m l) as [o m1] eqn:E1. destruct (sched q auto posf m1 ls) as [os2 m2] eqn:E2.
+  - destruct (step q auto posf mm nr m l) as [o m1] eqn:E1. destruct (sched q auto posf mm nr m1 ls) as [os2 m2] eqn:E2.
     inversion H; subst; clear H. destruct (step_quiet _ Hq E1) as (A & B & C & D).
     destruct (IH _ _ _ A E2) as (A2 & B2 & C2 & D2). unfold same_page. repeat split; try congruence; apply A2.
 Qed.
